@@ -110,9 +110,9 @@ class Zygote:
         n = struct.unpack("<I", h)[0]
         return json.loads(self._rdn(n, deadline))
 
-    def fork(self):
+    def fork(self, inproc=False):
         assert not self.active
-        self._wr({"z": "fork"})
+        self._wr({"z": "inproc" if inproc else "fork"})
         self.active = True
 
     def op(self, op, timeout=20.0):
@@ -160,7 +160,8 @@ class ZygotePool:
     """Zygotes owned by one worker process; several instances per salt when a run needs
     more than one live node with the same salt."""
 
-    def __init__(self, repo=None, limit=24):
+    def __init__(self, repo=None, limit=24, inproc=False):
+        self.inproc = inproc
         self.repo = repo or REPO
         self.free = {}  # salt -> [Zygote]
         self.count = 0
@@ -243,7 +244,7 @@ def execute(plan, zpool, op_timeout=30.0, on_event=None):
     try:
         for nc in plan["nodes"]:
             z = zpool.acquire(nc["salt"])
-            z.fork()
+            z.fork(zpool.inproc)
             nodes.append(z)
         for i, nc in enumerate(plan["nodes"]):
             for op in nc.get("init", []):
@@ -254,7 +255,7 @@ def execute(plan, zpool, op_timeout=30.0, on_event=None):
             name = op[0]
             if name == "crash":
                 z.end()
-                z.fork()
+                z.fork(zpool.inproc)
                 for op2 in plan["nodes"][ni].get("reinit", []):
                     z.op(op2, op_timeout)
                 r = {"ok": "restarted"}
